@@ -447,6 +447,7 @@ pub fn c01(thorough: bool, replay: Option<String>) -> i32 {
         calls.extend(nested_cases(Some(s)));
         calls.extend(many_helpers_cases(Some(s), if thorough { 16 } else { 9 }));
         calls.extend(cse_cases(Some(s), thorough));
+        calls.extend(literal_one_cases(Some(s)).into_iter().enumerate().filter(|(i, _)| thorough || i % 3 == 0).map(|(_, c)| c));
         calls.extend(let_position_cases(Some(s)).into_iter().enumerate().filter(|(i, _)| thorough || i % 2 == 0).map(|(_, c)| c));
         calls.extend(constcond_cases(Some(s)).into_iter().enumerate().filter(|(i, _)| thorough || i % 2 == 0).map(|(_, c)| c));
         calls.extend(const_graph_cases(Some(s), if thorough { 4 } else { 3 }).into_iter().filter(|c| thorough || c.tags[1].ends_with("order0") || c.tags[1].ends_with("order1")));
@@ -900,6 +901,8 @@ fn classic_cases(thorough: bool) -> Vec<Case> {
         out.push(kernel_case(&e, 1, None));
         out.push(kernel_case(&e, 2, None));
     }
+    // a constant whose only mention follows the literal 1 / 2 in an argument list
+    out.extend(literal_one_cases(None));
     out
 }
 
@@ -1059,7 +1062,7 @@ pub fn c03(thorough: bool, replay: Option<String>) -> i32 {
         });
         rep.add_sub("constants-graphs", &format!("{} programs: chains of 2..{} defconst constants depending on each other directly / through a defun / an inline / a template macro, in every order of the definitions; each compiled with the pending-constants loop of the classic module compiler iterated in sorted order and in every other permutation at each visit (through the verif-hooks seam; every order is realisable under some hash seeding)", n, if thorough { 4 } else { 3 }), n, true, capped2, st2);
     }
-    rep.add_sub("classic-programs", &format!("{} programs: every parameter tree with <= {} leaves and flat/improper lists up to 40 as main / defun / defun-inline parameters, every literal and operator in 6 positions, binder chains over defun/inline/macro/if, recursion, constant calls, kernels", n, 4), n, true, capped, st);
+    rep.add_sub("classic-programs", &format!("{} programs: every parameter tree with <= {} leaves and flat/improper lists up to 40 as main / defun / defun-inline parameters, every literal and operator in 6 positions, binder chains over defun/inline/macro/if, recursion, constant calls, kernels, constants mentioned only after the literal 1 / 2 in an argument list", n, 4), n, true, capped, st);
     rep.finish()
 }
 
